@@ -9,6 +9,10 @@ materialised, or that git ignored just before the command, is ignored according 
 none of them and nothing of the cache, every .gitignore has its previous bytes as a prefix and its previous lines as a
 prefix of its lines.  Histories interleave xvc commands with user edits (lost .gitignore, regenerated directory,
 deleted lines): a later command that names a recorded path must re-establish "tracked => ignored".
+Stream `onto-existing`: tracked files are materialised ONTO entries that are already in the workspace (hand-made files and links,
+recorded paths whose ignore line is gone, untracked paths) by copy --force / recheck --force / bring --force, file and directory
+destinations, every recheck method: the ignore operation must not depend on what was at the path (Props/C16.lean
+`C16_ignore_op_independent_of_prior_entry`, translator guard `destAbsent` in Gen/IgnoreSends.lean).
 
 The Lean model mirrors the code WITH patches/C09-F8.patch and patches/C16-newline.patch.
 """
@@ -319,7 +323,7 @@ def with_contents(ents, contents):
 # ---------------------------------------------------------------------------------------------
 # histories: xvc commands and, between them, what a user does to the workspace
 
-USER_STEPS = ('u-rm-gitignore', 'u-regen-dir', 'u-del-line', 'u-modify', 'u-pad')
+USER_STEPS = ('u-rm-gitignore', 'u-regen-dir', 'u-del-line', 'u-modify', 'u-pad', 'u-put')
 FAULT_STEPS = ('fault-fsize', 'fault-kill')
 
 
@@ -347,7 +351,11 @@ def step_text(c):
     k = c[0]
     if k == 'track': return 'xvc file track ' + ' '.join(list(c[2] if len(c) > 2 else []) + list(c[1]))
     if k == 'rm-recheck': return (f'rm -rf {os.path.dirname(c[1])}; xvc file recheck (everything tracked below)' if c[2] else f'rm {c[1]}; xvc file recheck {c[1]}')
-    if k in ('recheck', 'carry-in'): return f'xvc file {k} ' + ('--force ' if c[2] else '') + ' '.join(c[1])
+    if k in ('recheck', 'carry-in'): return f'xvc file {k} ' + ('--force ' if c[2] else '') + ' '.join(list(c[3]) + [''] if len(c) > 3 and c[3] else []) + ' '.join(c[1])
+    if k == 'untrack': return 'xvc file untrack ' + ' '.join(c[1])
+    if k == 'send-bring': return (f'xvc file send -s s {" ".join(c[1])}; the cache is lost; xvc file bring -s s ' + ('--force ' if c[2] else '') + ' '.join(c[1]))
+    if k == 'u-put': return {'file': f'user: writes a file of their own to {c[1]} (replacing what is there)',
+                             'link': f'user: ln -sf <notes.txt> {c[1]}', 'dangling': f'user: ln -sf /nonexistent/target {c[1]}'}[c[2]]
     if k in ('copy', 'move'): return f'xvc file {k} ' + ' '.join(list(c[3]) if len(c) > 3 else []) + (' ' if len(c) > 3 and c[3] else '') + f'{c[1]} {c[2]}'
     if k == 'send-rm-bring': return f'xvc file send -s s (everything tracked below {os.path.dirname(c[1])}/); rm -rf {os.path.dirname(c[1])} and the cache; xvc file bring -s s (the same)'
     if k == 'u-rm-gitignore': return f'user: rm {c[1]}/{GI}'
@@ -396,6 +404,18 @@ def user_step(sb, st, c, protected):
             rest = room - len(body)
             body += (b'# ' + b'p' * (rest - 3) + b'\n') if rest >= 3 else b''
             sb.write(g, old + body)
+    elif k == 'u-put':
+        # the user puts an entry of their own at a path: a file made by hand, a link to another file of theirs, a dangling link
+        p = sb.path(c[1])
+        os.makedirs(os.path.dirname(p), exist_ok=True)
+        if os.path.lexists(p): os.unlink(p)
+        if c[2] == 'file':
+            sb.write(c[1], 'made by hand: ' + c[1])
+        elif c[2] == 'link':
+            if not os.path.lexists(sb.path('notes.txt')): sb.write('notes.txt', 'notes of the user')
+            os.symlink(sb.path('notes.txt'), p)
+        else:
+            os.symlink('/nonexistent/target-of-' + os.path.basename(c[1]), p)
     elif k == 'u-modify':
         f = c[1]
         if os.path.lexists(sb.path(f)):
@@ -512,6 +532,21 @@ def gen_step(rng, chk, sb, st, protected, k):
     if tr_disk:
         return gen_repair(rng, st, rng.choice(tr_disk), on_disk)
     return None
+
+
+def count_prior(chk, sb, cmd, p, store, opts, dir_dest):
+    """what sits at the path a command is about to materialise a tracked file at (distribution of the generator)"""
+    ap = sb.path(p)
+    if not os.path.lexists(ap):
+        kind = 'absent'
+    else:
+        kind = ('dangling-link' if os.path.islink(ap) and not os.path.exists(ap) else 'link' if os.path.islink(ap)
+                else 'hardlinked-file' if os.lstat(ap).st_nlink > 1 else 'file')
+        r = git_check_ignore(sb.root, sb.env, [p]).get(p)
+        kind += (':recorded' if p in store else ':unknown-to-xvc') + (':ignored' if r and r[0] else ':not-ignored')
+    method = opts[opts.index('--recheck-method') + 1] if '--recheck-method' in opts else 'recorded-method'
+    chk.count(f'materialise-onto:{cmd}:{kind}:{"dir-dest" if dir_dest else "file-dest"}:{method}' + (':force' if '--force' in opts or cmd != 'copy' and cmd != 'move' else ''))
+    return kind
 
 
 def with_parents(ents, paths):
@@ -657,7 +692,7 @@ def scenario(chk, pr, xvc, idx, rng, forced=None):
                     for f in carried: cache.add((cur[f], ext_of(f)))
                 named = set(fts)
             elif c[0] in ('rm-recheck', 'recheck'):
-                force = False
+                force, ropts = False, []
                 if c[0] == 'rm-recheck':
                     f, whole_dir = c[1], c[2]
                     if whole_dir:
@@ -674,12 +709,15 @@ def scenario(chk, pr, xvc, idx, rng, forced=None):
                         targets = [f]
                 else:
                     targets, force = list(c[1]), bool(c[2])
-                chk.count('command:recheck' + (':force' if force else ''))
+                    ropts = list(c[3]) if len(c) > 3 else []
+                chk.count('command:recheck' + (':force' if force else '') + (':' + '='.join(ropts) if ropts else ''))
+                if force:
+                    for f in targets: count_prior(chk, sb, 'recheck', f, store, ropts, False)
                 absent = {f for f in targets if not os.path.lexists(sb.path(f))}
                 mat = sorted(f for f in targets if (rec.get(f), ext_of(f)) in cache and (force or f in absent))
                 made = sorted({os.path.dirname(f) for f in mat if os.path.dirname(f) and not os.path.isdir(sb.path(os.path.dirname(f)))})
                 if made: chk.count('newdir:recheck-into-absent-directory')
-                rc, out, err = X('file', 'recheck', *(['--force'] if force else []), *targets)
+                rc, out, err = X('file', 'recheck', *(['--force'] if force else []), *ropts, *targets)
                 # recheck_from_cache re-creates the parents: the model works on the tree that has them; with several missing
                 # parents the IgnoreDir operations depend on the order of the worker threads
                 if len(made) <= 1:
@@ -720,6 +758,39 @@ def scenario(chk, pr, xvc, idx, rng, forced=None):
                         exp = model_after(pr, 'ghandler', with_parents(ents, targets), made, targets)
                     for f in targets: content[f] = rec[f]
                     named = {f for f in targets if os.path.lexists(sb.path(f))}
+            elif c[0] == 'untrack':
+                # the records go, the file stays in the workspace (a link into the cache is replaced by a copy) and so does its ignore line
+                targets = list(c[1])
+                chk.count('command:untrack')
+                rc, out, err = X('file', 'untrack', *targets)
+                if rc == 0:
+                    for f in targets: rec.pop(f, None)
+            elif c[0] == 'send-bring':
+                # the targets go to a local storage, the cache is lost, `bring [--force]` fetches and rechecks (cmd_recheck) ONTO what
+                # is in the workspace
+                targets, force = list(c[1]), bool(c[2])
+                targets = [t for t in targets if (rec.get(t), ext_of(t)) in cache]
+                chk.count('command:bring' + (':force' if force else ''))
+                if not st.get('storage'):
+                    X('storage', 'new', 'local', '--name', 's', '--path', os.path.join(sb.base, 'storage')); st['storage'] = True
+                rc, out, err = X('file', 'send', '--storage', 's', *targets)
+                if rc == 0 and targets:
+                    for cd in set(CACHE_PREFIX.values()):
+                        if os.path.isdir(sb.path('.xvc/' + cd)):
+                            for dp, dn, fn in os.walk(sb.path('.xvc/' + cd)):
+                                os.chmod(dp, 0o755)
+                            shutil.rmtree(sb.path('.xvc/' + cd), ignore_errors=True)
+                    kept = {x for x in cache if any(rec.get(t) == x[0] and ext_of(t) == x[1] for t in targets)}
+                    cache.clear(); cache.update(kept)
+                    if force:
+                        for f in targets: count_prior(chk, sb, 'bring', f, store, [], False)
+                    absent = {f for f in targets if not os.path.lexists(sb.path(f))}
+                    rc, out, err = X('file', 'bring', '--storage', 's', *(['--force'] if force else []), *targets)
+                    mat = sorted(f for f in targets if force or f in absent)
+                    if force:
+                        exp = model_after(pr, 'ghandler', ents, [], mat)
+                    for f in mat: content[f] = rec[f]
+                    named = {f for f in mat if os.path.lexists(sb.path(f))}
             elif c[0] == 'carry-in':
                 targets, force = list(c[1]), bool(c[2])
                 chk.count('command:carry-in' + (':force' if force else ''))
@@ -737,12 +808,17 @@ def scenario(chk, pr, xvc, idx, rng, forced=None):
                 src, dst = c[1], c[2]
                 mopts = list(c[3]) if len(c) > 3 else []
                 chk.count('command:' + c[0] + (':' + '='.join(mopts) if mopts else ''))
+                dir_dest = dst.endswith('/')
+                if dir_dest:
+                    # a directory destination: the path is computed (`dir_path.join(source)`, or the file name with --name-only)
+                    dst = dst + (os.path.basename(src) if '--name-only' in mopts else src)
+                count_prior(chk, sb, c[0], dst, store, mopts, dir_dest)
                 parent = os.path.dirname(dst)
                 missing = bool(parent) and not os.path.isdir(sb.path(parent))
                 if missing: chk.count(f'newdir:{c[0]}-into-absent-directory')
                 rc, out, err = X('file', c[0], *mopts, src, dst)
                 if rc == 0:
-                    files.append(dst)
+                    if dst not in files: files.append(dst)
                     content[dst] = cur.get(src, rec.get(src, ''))
                     if src in rec:
                         rec[dst] = rec[src]
@@ -750,7 +826,7 @@ def scenario(chk, pr, xvc, idx, rng, forced=None):
                     if c[0] == 'move': rec.pop(src, None)
                     if missing:
                         # recheck_from_cache created the parent: the model works on the tree that has it
-                        ents = ents + [('D', p) for p in ([parent] + ([os.path.dirname(parent)] if '/' in parent else [])) if ('D', p) not in ents]
+                        ents = with_parents(ents, [dst])
                     if c[0] == 'move' and not mopts:      # copy -> copy: renamed in the workspace, then update_file_gitignores (C16-move.patch)
                         exp = model_after(pr, 'gmove', ents, [], [dst])
                     else:
@@ -995,6 +1071,82 @@ def gen_newdir_spec(rng, chk, k):
     return {'files': files, 'gitignores': gis, 'commands': cmds}
 
 
+# seeded defect C16-5 (recheck_from_cache reports the file to the ignore handler only when nothing was at the destination): a
+# tracked file is materialised ONTO AN ENTRY THAT IS ALREADY THERE - a file the user made by hand, a path whose ignore line is gone, a
+# link - at a file destination or at the path computed under a directory destination
+ONTO_CORPUS = [
+    {'files': ['data/model.bin', 'out/keep.txt'], 'gitignores': {},
+     'commands': [('track', ['data/model.bin'], []), ('u-put', 'out/model-copy.bin', 'file'), ('copy', 'data/model.bin', 'out/model-copy.bin', ['--force'])]},
+    {'files': ['data/weights.bin'], 'gitignores': {'': '*.log\n'},
+     'commands': [('track', ['data/weights.bin'], []), ('u-put', 'out/data/weights.bin', 'file'),
+                  ('copy', 'data/weights.bin', 'out/', ['--force', '--recheck-method', 'symlink'])]},
+    {'files': ['data/a.dat', 'out/keep.txt'], 'gitignores': {},
+     'commands': [('track', ['data/a.dat'], []), ('copy', 'data/a.dat', 'out/c.dat'), ('u-del-line', 'out', '/c.dat'),
+                  ('copy', 'data/a.dat', 'out/c.dat', ['--force', '--recheck-method', 'hardlink']),
+                  ('u-del-line', 'out', '/c.dat'), ('recheck', ['out/c.dat'], True, ['--recheck-method', 'symlink'])]},
+]
+ONTO_PRIORS = ['user-file', 'user-file', 'user-link', 'user-dangling-link', 'tracked-line-deleted', 'tracked-line-deleted', 'tracked-gitignore-lost',
+               'tracked-replaced-by-user', 'untracked-line-deleted', 'tracked', 'absent']
+RECHECK_METHODS = [None, 'copy', 'symlink', 'hardlink', 'reflink']
+
+
+def gen_onto_spec(rng, chk, k):
+    """materialisation ONTO AN EXISTING workspace entry: what is at the destination (a file / link / dangling link the user made and
+    xvc does not know; a recorded path whose ignore line or .gitignore the user deleted, or whose content the user replaced; a path
+    that was tracked and then untracked; controls: recorded and ignored, absent) x destination shape (file, directory `out/` with
+    the computed path below, directory with --name-only) x command (copy --force, recheck --force, bring --force on recorded
+    destinations; move, which must refuse) x every recheck method.  Sources live in a sub-directory and destinations outside it
+    (a same-named line of an ancestor .gitignore is K12 proper)."""
+    sd = rng.choice(['data', 'src/raw'])
+    # same extension: the cache path of a copy is computed from the DESTINATION's extension (a copy to another extension fails)
+    n0, n1 = rng.choice([('model.bin', 'weights.bin'), ('a.dat', 'b.dat'), ('m.pt', 'n.pt'), ('w.txt', 'v.txt')])
+    s0, s1 = sd + '/' + n0, sd + '/' + n1
+    out = rng.choice(['out', 'exp/run1', 'release'])
+    shape = rng.choice(['file', 'file', 'dir', 'dir-name-only'])
+    if shape == 'file': dst, arg, fopts = out + '/copy-of-' + n0, out + '/copy-of-' + n0, []
+    elif shape == 'dir': dst, arg, fopts = out + '/' + s0, out + '/', []
+    else: dst, arg, fopts = out + '/' + n0, out + '/', ['--name-only']
+    prior = rng.choice(ONTO_PRIORS)
+    method = lambda: (lambda m: ['--recheck-method', m] if m else [])(rng.choice(RECHECK_METHODS))
+    D, line = os.path.dirname(dst), '/' + os.path.basename(dst)
+    files = [s0, s1]
+    if prior.startswith('tracked') or prior.startswith('untracked') or rng.random() < 0.5:
+        files.append(D + '/keep.txt')          # the directory is there from the start: no `/dir/` line hides what happens to the file line
+    topts = ['--recheck-method', rng.choice(['symlink', 'hardlink'])] if rng.random() < 0.25 else []
+    if prior == 'user-dangling-link':
+        # link methods onto a dangling link fail on the unchanged code (Path::exists follows the link, the entry is not removed,
+        # symlink/hard_link answer EEXIST): the command panics, nothing is materialised - not a C16 matter, see the report
+        topts = []
+        method = lambda: (lambda m: ['--recheck-method', m] if m else [])(rng.choice([None, 'copy', 'reflink']))
+    cmds = [('track', [s0, s1], topts)]
+    if prior == 'user-file': cmds.append(('u-put', dst, 'file'))
+    elif prior == 'user-link': cmds.append(('u-put', dst, 'link'))
+    elif prior == 'user-dangling-link': cmds.append(('u-put', dst, 'dangling'))
+    elif prior != 'absent':
+        cmds.append(('copy', s0, arg, fopts + method()))
+        if prior == 'untracked-line-deleted': cmds += [('untrack', [dst]), ('u-del-line', D, line)]
+        elif prior == 'tracked-line-deleted': cmds.append(('u-del-line', D, line))
+        elif prior == 'tracked-gitignore-lost': cmds.append(('u-rm-gitignore', D))
+        elif prior == 'tracked-replaced-by-user': cmds += [('u-del-line', D, line), ('u-put', dst, 'file')]
+    recorded = prior.startswith('tracked')
+    r = rng.random()
+    if recorded and r < 0.25: cmd = ('recheck', [dst], True, method())
+    elif recorded and r < 0.40: cmd = ('send-bring', [dst], True)
+    elif shape == 'file' and prior in ('user-file', 'absent') and r > 0.85:
+        cmd = ('move', s1, dst, ['--recheck-method', 'symlink'] if rng.random() < 0.5 else [])      # onto an entry: refused, nothing recorded
+    else:
+        force = ['--force'] if prior != 'absent' or rng.random() < 0.5 else []
+        cmd = ('copy', s1 if shape == 'file' and rng.random() < 0.4 else s0, arg, force + fopts + method())
+    cmds.append(cmd)
+    if cmd[0] != 'move' and rng.random() < 0.4:
+        # once more onto the path that is recorded now, after the user removed its line again
+        cmds.append(('u-del-line', D, line))
+        cmds.append(('recheck', [dst], True, method()) if rng.random() < 0.5 else ('copy', s0, arg, ['--force'] + fopts + method()))
+    chk.count(f'onto-scenario:{prior}:{shape}:{cmd[0]}')
+    algo = ['blake3', 'default'] if rng.random() < 0.7 else [rng.choice(ALGORITHMS), rng.choice(['config', '-c', 'env'])]
+    return {'files': files, 'gitignores': {'': '*.log\n'} if rng.random() < 0.3 else {}, 'algorithm': algo, 'commands': cmds}
+
+
 FAULT_CORPUS = [
     # the demo: 13 KB of user patterns in the root .gitignore, first.bin tracked, then `track second.bin` under ulimit -f 8
     {'files': ['first.bin', 'second.bin'], 'gitignores': {'': big_user_lines(13300)},
@@ -1040,7 +1192,7 @@ def run(chk: Check):
     chk.trusted_base += [
         'translator lib/ignore_extract.py (GITIGNORE_INITIAL_CONTENT, COMMON_IGNORE_PATTERNS), cross-checked against the compiled constants (stream `const`)',
         'translator lib/c16_extract.py (variants of HashAlgorithm with cache directory and configuration value: Gen/HashAlgorithms.lean, compared with the directories the binary creates under .xvc/)',
-        'translator lib/c16_extract.py (the `ignore_writer.send(…)` sites of recheck_from_cache with their enclosing conditions: Gen/IgnoreSends.lean; a send whose argument is not a literal IgnoreOperation constructor counts as sending nothing)',
+        'translator lib/c16_extract.py (the `ignore_writer.send(…)` sites of recheck_from_cache with their enclosing conditions: Gen/IgnoreSends.lean; guards: always / parent directory created / nothing was at the destination (`if !path.exists()` or a `let` of it) / other; a send whose argument is not a literal IgnoreOperation constructor or whose guard is `other` counts as sending nothing)',
         'translator lib/c16_extract.py (how file/src/common/gitignore.rs and xvc init open the ignore files: Gen/GitignoreWrites.lean), cross-checked against the open(2) flags strace observes in one traced session per run and against the fault stream',
         'harness harness/src/bin/walker_harness.rs (`gcheckignore` = build_ignore_patterns(.gitignore)+check, as build_gitignore does), lib/c16.py (generators, canonicalisation of dates and of the HashMap order inside one appended block, oracle), lib/xvcbin.py',
         'modelled, not verified: git itself (dir.c/wildmatch are modelled by gitIgnored over globMatch and compared with the real `git check-ignore --no-index` on every run; `git add -A -n` is the oracle), chrono date text, the POSIX semantics of O_APPEND (WritePrim.lean `WriteKind.after`), HashMap iteration order (irrelevant: one file per group)',
@@ -1151,6 +1303,34 @@ def run(chk: Check):
             chk.samples.append({'stream': 'new-directories', 'history': log, 'oracle': [m for m, _ in fails] or 'every obliged tracked path ignored by git, every .gitignore append-only'})
     chk.extra['phase_s']['new-directories'] = round(time.time() - t_phase, 1); t_phase = time.time()
 
+    # ---- materialisation onto entries that are already there (recheck_from_cache: the IgnoreFile does not depend on what it replaces)
+    sends = (chk.extra.get('translator_ignore_sends') or {}).get('send_sites') or []
+    # the send sites are not the two the proofs are about (a translator obligation broke): look harder where they matter
+    directed = any(x['guard'] not in ('always', 'parentCreated') or x['kind'] == 'computed' for x in sends) or len(sends) != 2
+    n_on = (10 if quick else 80) * (3 if directed else 1)
+    if directed: chk.notes.append(f'the ignore send sites of recheck_from_cache changed ({[(x["kind"], x["guard"]) for x in sends]}): onto-existing stream widened to {n_on} histories')
+    est = chk.tie['streams'].setdefault('onto-existing', {'cases': 0, 'commands': 0, 'disagreements': 0, 'oracle_failures': 0})
+    ospecs = [dict(x) for x in ONTO_CORPUS] + [gen_onto_spec(rng, chk, j) for j in range(n_on)]
+    for j, spec in enumerate(ospecs):
+        fails, tie, log = scenario(chk, pr, xvc, 8000 + j, rng, forced=spec)
+        est['cases'] += 1; chk.evaluations += 1
+        est['commands'] += sum(1 for l in log if 'cmd' in l)
+        chk.nontrivial.add(hashlib.sha1(repr(log).encode()).hexdigest())
+        fails, log = minimise(fails, log, [(m, sg) for m, sg in fails if tuple(sorted(sg.items())) not in seen_sig], f'o{j}')
+        for msg, sig in fails:
+            key = tuple(sorted(sig.items()))
+            if key in seen_sig: continue
+            seen_sig.add(key)
+            est['oracle_failures'] += 1
+            chk.oracle_failure(msg, {'history': log, 'level': 'binary', 'stream': 'onto-existing'}, {'all': [m for m, _ in fails]}, signature=sig)
+        if tie:
+            est['disagreements'] += 1
+            if est['disagreements'] == 1:
+                chk.disagreement('onto-existing', log, tie[0][1], tie[0][2], tie[0][0])
+        if j == 1 and len(chk.samples) < 9:
+            chk.samples.append({'stream': 'onto-existing', 'history': log, 'oracle': [m for m, _ in fails] or 'every obliged tracked path ignored by git, every .gitignore append-only'})
+    chk.extra['phase_s']['onto-existing'] = round(time.time() - t_phase, 1); t_phase = time.time()
+
     # ---- the append primitive: open flags observed in one traced session, and faults at the .gitignore update
     ost = chk.tie['streams'].setdefault('open-flags', {'cases': 0, 'disagreements': 0})
     of_ = observe_open_flags(chk, xvc)
@@ -1213,6 +1393,11 @@ def run(chk: Check):
         f'{len(nspecs)} new-directory histories (the three scenarios of seeded defect C16-4 first): a tracked file is materialised by copy / move [--recheck-method symlink] / rm -rf dir + recheck / '
         'send + rm -rf dir and cache + bring into a directory that does not exist (or does, as control), top level or nested, with user patterns none / `!/N` / `!N` / `*.x`+`!N` in the root or `!N` / `!/N` in the parent, '
         'and optionally a tracked FILE called N at the root (its `/N` line is read by xvc at any depth): same oracle and byte tie (`!N/` is K6a proper and left out); '
+        f'{len(ospecs)} onto-existing histories (three corpus histories first): a tracked file is materialised ONTO an entry that is already in the workspace - a file, a link or a dangling link '
+        'the user made by hand (unknown to xvc, not ignored), a recorded path whose ignore line / whose .gitignore the user deleted or whose content the user replaced, a path that was tracked and then '
+        'untracked, controls: recorded and ignored, absent - at a file destination, at the path computed under a directory destination `out/` and with --name-only, by copy --force, recheck --force, '
+        'send + lost cache + bring --force (recorded destinations), move (must refuse), with every recheck method (recorded, copy, symlink, hardlink, reflink), optionally once more after the line was '
+        'deleted again: same oracle and byte tie; '
         f'{len(fspecs)} fault histories: a LATER command (track file/glob/dir, copy, move, recheck, carry-in) runs under `trap "" XFSZ; ulimit -f 4|8|16` '
         'with a root or sub-directory .gitignore that the user\'s own lines made larger than the limit (or so large that the appended block crosses it), or is killed by strace at its first write(2) to that '
         '.gitignore; oracle: every byte that was in every .gitignore is still there as a prefix, every tracked path git ignored before is still ignored and not staged (the targets of the failed command are '
